@@ -1,20 +1,31 @@
 """C14 - Window functions obey their periodic/symmetric, symmetry and overlap contracts."""
+import importlib.util
 import math
+import sys
+import warnings
 from fractions import Fraction
 
 from hypothesis import strategies as st
 from vlib.core import Clause, Enumerated, Violation
 
 import audiolazy
+import audiolazy.lazy_analysis
 from audiolazy import window, wsymm
 
 ID = "C14"
 RULE = ("cases = (strategy name or alias, size[, alpha, call route]); every "
         "(name, size) pair with 0 <= size <= 256 (thorough 2048) is enumerated with the "
         "default alpha, cos/blackman are enumerated again over fixed alpha lists and "
-        "swept by Hypothesis over float alphas; COLA cases enumerate every size "
+        "swept by Hypothesis over float alphas (both with the alphas that invite a path of their "
+        "own: roots, small integer / half-integer powers, other spellings of the documented "
+        "Blackman constants); COLA cases enumerate every size "
         "divisible by 2 (hann, hamming, bartlett, rect aliases) or 4 (hann, hamming, "
-        "blackman); the cross-reference identities are enumerated exhaustively. Oracle = "
+        "blackman); a third of the grid / sweep cases pass the size (and alpha) by keyword; "
+        "histories (Hypothesis) ask the periodic window, its size+1 symmetric counterpart and "
+        "the symmetric window at different moments of a sequence of calls of other strategies / "
+        "dictionaries / sizes (multiples, divisors, same, near, unrelated), on a newly executed "
+        "private copy of audiolazy.lazy_analysis (2/3) or on the worker's imported one; "
+        "the cross-reference identities are enumerated exhaustively. Oracle = "
         "length, exact prefix relation window.X(size) == wsymm.X(size+1)[:size], range, "
         "symmetry, wsymm.X(1) == [1.0], independently evaluated closed forms "
         "(integer-folded trigonometric arguments, exact rationals for the triangular "
@@ -25,9 +36,15 @@ ASSUMPTIONS = [
   "window.X is window.X.symm (wsymm lacks the dirichlet/rectangular aliases, alias parity "
   "is not part of the property); for names present in wsymm, wsymm[X] is also used directly",
   "float tolerances: 1e-12 absolute for closed forms, symmetry and range (probed rounding "
-  "error < 1e-15); for cos with 0 < alpha < 1 the tolerance is (1e-12)**alpha because "
-  "x**alpha has unbounded slope at the zero end points (the argument error, < 1e-15, is "
-  "what is bounded); COLA: max-min of the hop-shifted sums <= 1e-12 * (size/hop)",
+  "error < 1e-15); for cos with 0 < alpha < 1 the tolerance is (1e-12)**alpha at the samples "
+  "whose closed form is exactly zero (the end points), because x**alpha has unbounded slope "
+  "there (the argument error, < 1e-15, is what is bounded), and 1e-12 at every other sample; "
+  "COLA: max-min of the hop-shifted sums <= 1e-12 * (size/hop)",
+  "the exact prefix relation has no condition on what was called before or in between: it is "
+  "asserted between results obtained at different moments of a history of other window calls; a "
+  "private copy of the module executed anew (importlib, not put in sys.modules) stands for a new "
+  "process, so that a case does not depend on what the worker process ran before",
+  "size and alpha are the documented parameter names and may be passed by keyword",
   "every sample must be a real number (int/float, not complex): the closed forms are real",
   "calling a strategy dictionary itself (window(size), wsymm(size)) is an access path to its default strategy, which must be one of the dictionary's own strategies (CHANGES.rst: the Hann window for both)",
   "blackman range claim [0,1] only for 0 <= alpha <= 0.25 (beyond that the closed form "
@@ -104,33 +121,61 @@ def ref_window(primary, size, alpha, symm):
   return [ref_sample(primary, n, size, alpha) for n in range(size)]
 
 
-def tol_for(primary, alpha):
-  if primary == "cos" and 0 < alpha < 1:
+def tol_at(primary, alpha, n, L):
+  """Tolerance of sample n of a window of period/span L. The wide (1e-12)**alpha of cos with
+  0 < alpha < 1 is needed only where the closed form is exactly zero (n a multiple of L: the
+  code raises a rounding residue of sin(pi) ~ 1e-16 to a small power there); every other sample
+  has sin >= sin(pi/L) with a relative error ~1e-16, which a power below 1 does not amplify."""
+  if primary == "cos" and alpha is not None and 0 < alpha < 1 and L and n % L == 0:
     return TOL ** alpha
   return TOL
 
 
 # ---------------------------------------------------------------- real calls
 
-def _strategies(name, route):
+def _strategies(name, route, dicts=None):
   """(periodic function, symmetric function) reached through the given route."""
+  wnd, wsy = dicts or (window, wsymm)
   if route in ("item", "pos", "kw"):
-    per = window[name]
+    per = wnd[name]
   else:
-    per = getattr(window, name)
+    per = getattr(wnd, name)
   try:
-    sym = wsymm[name] if route in ("item", "pos", "kw") else getattr(wsymm, name)
+    sym = wsy[name] if route in ("item", "pos", "kw") else getattr(wsy, name)
   except (KeyError, AttributeError):
     sym = per.symm        # window-only alias
   return per, sym
 
 
-def _call(f, size, alpha, route):
+def _call(f, size, alpha, route, kws=False):
+  """kws: the size goes by its documented parameter name (and then alpha too, named first)."""
+  if kws:
+    if alpha is None:
+      return f(size=size)
+    return f(alpha=alpha, size=size)
   if alpha is None:
     return f(size)
   if route == "kw":
     return f(size, alpha=alpha)
   return f(size, alpha)
+
+
+_FRESH_CODE = {}
+
+
+def _fresh_dicts():
+  """(window, wsymm) of a private, newly executed copy of audiolazy.lazy_analysis: the state a
+  new process starts with, whatever earlier cases of this worker process asked for."""
+  path = sys.modules["audiolazy.lazy_analysis"].__file__
+  spec = importlib.util.spec_from_file_location("audiolazy.lazy_analysis", path)
+  mod = importlib.util.module_from_spec(spec)
+  with warnings.catch_warnings():
+    warnings.simplefilter("ignore")
+    if path not in _FRESH_CODE:       # compiled once per worker, executed anew for every case
+      with open(path, "rb") as f:
+        _FRESH_CODE[path] = compile(f.read(), path, "exec", dont_inherit=True)
+    exec(_FRESH_CODE[path], mod.__dict__)
+  return mod.window, mod.wsymm
 
 
 def _check_list(what, got, size):
@@ -146,65 +191,81 @@ def _check_list(what, got, size):
       raise Violation("%s sample %d is %r" % (what, n, x))
 
 
-def _check_closed(what, got, ref, tol):
+def _check_closed(what, got, ref, primary, a, L):
   for n, (g, r) in enumerate(zip(got, ref)):
+    tol = tol_at(primary, a, n, L)
     if abs(g - r) > tol:
       raise Violation("%s sample %d is %r, closed form gives %r (|diff| %.3g > %.3g)"
                       % (what, n, g, r, abs(g - r), tol))
 
 
-def check_window(name, size, alpha, route):
+def _verify_periodic(tag, primary, size, a, w):
+  """Claims on one periodic window on its own: list of size reals in [0, 1], closed form."""
+  _check_list("window." + tag, w, size)
+  range_claimed = not (primary == "blackman" and not (0 <= a <= .25))
+  if range_claimed:
+    for n, x in enumerate(w):
+      if not (-TOL <= x <= 1 + TOL):
+        raise Violation("window.%s sample %d = %r is outside [0, 1]" % (tag, n, x))
+  _check_closed("window." + tag, w, ref_window(primary, size, a, False), primary, a, size)
+  return range_claimed
+
+
+def _verify_symm(tag, primary, size, a, ws):
+  """Claims on one symmetric window on its own: list of size reals, symmetric, [1.0], closed form."""
+  _check_list("wsymm." + tag, ws, size)
+  for n in range(size // 2):
+    if abs(ws[n] - ws[size - 1 - n]) > tol_at(primary, a, n, size - 1):
+      raise Violation("wsymm.%s is not symmetric: sample %d = %r, sample %d = %r"
+                      % (tag, n, ws[n], size - 1 - n, ws[size - 1 - n]))
+  if size == 1 and not (ws == [1.0] and type(ws[0]) is float):
+    raise Violation("wsymm.%s is %r, expected [1.0]" % (tag, ws))
+  _check_closed("wsymm." + tag, ws, ref_window(primary, size, a, True), primary, a, size - 1)
+
+
+def _verify_prefix(tag, name, size, w, ws1, how=""):
+  """periodic == first size samples of the (size+1) symmetric one, exactly"""
+  if w != ws1[:size]:
+    bad = [n for n in range(size) if w[n] != ws1[n]]
+    raise Violation("window.%s != wsymm.%s(size+1)[:size]%s: first difference at n=%d: %r vs %r"
+                    % (tag, name, how, bad[0], w[bad[0]], ws1[bad[0]]))
+
+
+def check_window(name, size, alpha, route, kws=False):
   """All per-(name, size, alpha) claims of the property."""
   primary = NAMES[name]
   a = DEFAULT_ALPHA.get(primary) if alpha is None else alpha
-  tol = tol_for(primary, a) if a is not None else TOL
   per, sym = _strategies(name, route)
   tag = "%s(%d%s)" % (name, size, "" if alpha is None else ", alpha=%r" % (alpha,))
 
   # what an earlier caller did to the lists it was given must not matter (the periodic docstrings
   # themselves suggest appending a sample to the result): use and change earlier results first
   for f, sz in ((per, size), (sym, size + 1), (sym, size)):
-    earlier = _call(f, sz, alpha, route)
+    earlier = _call(f, sz, alpha, route, kws)
     if isinstance(earlier, list):
       earlier.append(7.5)
       earlier[0] = -3.25
       if len(earlier) > 2:
         del earlier[1]
 
-  w = _call(per, size, alpha, route)
+  w = _call(per, size, alpha, route, kws)
   _check_list("window." + tag, w, size)
-  ws1 = _call(sym, size + 1, alpha, route)
+  ws1 = _call(sym, size + 1, alpha, route, kws)
   _check_list("wsymm.%s [size+1]" % tag, ws1, size + 1)
-  ws = _call(sym, size, alpha, route)
+  ws = _call(sym, size, alpha, route, kws)
   _check_list("wsymm." + tag, ws, size)
 
-  # periodic == first size samples of the (size+1) symmetric one, exactly
-  if w != ws1[:size]:
-    bad = [n for n in range(size) if w[n] != ws1[n]]
-    raise Violation("window.%s != wsymm.%s(size+1)[:size]: first difference at n=%d: %r vs %r"
-                    % (tag, name, bad[0], w[bad[0]], ws1[bad[0]]))
-  # range
-  range_claimed = not (primary == "blackman" and not (0 <= a <= .25))
-  if range_claimed:
-    for n, x in enumerate(w):
-      if not (-TOL <= x <= 1 + TOL):
-        raise Violation("window.%s sample %d = %r is outside [0, 1]" % (tag, n, x))
-  # symmetry of the symmetric one, and its size-1 value
-  for n in range(size // 2):
-    if abs(ws[n] - ws[size - 1 - n]) > tol:
-      raise Violation("wsymm.%s is not symmetric: sample %d = %r, sample %d = %r"
-                      % (tag, n, ws[n], size - 1 - n, ws[size - 1 - n]))
-  if size == 1 and not (ws == [1.0] and type(ws[0]) is float):
-    raise Violation("wsymm.%s is %r, expected [1.0]" % (tag, ws))
+  _verify_prefix(tag, name, size, w, ws1)
+  range_claimed = _verify_periodic(tag, primary, size, a, w)
+  _verify_symm(tag, primary, size, a, ws)
   if size == 0 and ws1 != [1.0]:
     raise Violation("wsymm.%s(1) is %r, expected [1.0]" % (name, ws1))
-  # closed forms
-  _check_closed("window." + tag, w, ref_window(primary, size, a, False), tol)
-  _check_closed("wsymm." + tag, ws, ref_window(primary, size, a, True), tol)
-  _check_closed("wsymm.%s [size+1]" % tag, ws1, ref_window(primary, size + 1, a, True), tol)
+  _verify_symm("%s [size+1]" % tag, primary, size + 1, a, ws1)
 
   labels = ["strategy:" + primary, "odd size" if size % 2 else "even size",
             "route:" + route]
+  if kws:
+    labels.append("size by keyword")
   if name != primary:
     labels.append("alias")
   if not range_claimed:
@@ -251,18 +312,34 @@ def grid_cases(tier, shard, nshards):
       i += 1
       if i % nshards == shard:
         yield {"name": name, "size": size,
-               "route": "item" if (size + len(name)) % 2 else "attr"}
+               "route": "item" if (size + len(name)) % 2 else "attr",
+               "kws": (size + ORDER.index(name)) % 3 == 0}
 
 
 def run_grid(case):
-  labels = check_window(case["name"], case["size"], None, case["route"])
+  labels = check_window(case["name"], case["size"], None, case["route"], case.get("kws", False))
   return {"nontrivial": case["size"] >= 3, "labels": labels}
 
 
 ALPHAS = {
-  "cos": [0, .5, 1, 2, 3.5, 1. / 3, 8],
+  "cos": [0, .5, 1, 2, 3.5, 1. / 3, 8, 1. / 64],
   "blackman": [0., .16, .25, 2.0 * 1430 / 18608, .5, 1., .1],
 }
+
+
+# alphas that invite a path of their own (roots, small integer and half-integer powers, the other
+# spellings of the documented Blackman constants: a0 = 7938/18608 <=> alpha = 1 - 2*a0, int 0 / 1,
+# the classic a0 = .42 as 1 - 2*.42, one ulp off .16): enumerated over a reduced list of sizes, which has the
+# sizes whose symmetric closing sample has a negative rounding residue (14, 27, 48, 53)
+SPECIAL_ALPHAS = {
+  "cos": [.25, .75, 1.5, 2.5, 3, 4, 2.0, 1.0, .125],
+  "blackman": [1 - 2 * 7938 / 18608., 1430 / 9304., 1 - 2 * .42, 0, 1, .2, .05, .08],
+}
+
+
+def _special_alpha_sizes(tier):
+  top = 64 if tier == "quick" else 200
+  return sorted(set(range(top + 1)) | set(SPECIAL_SIZES))
 
 
 def alpha_grid_cases(tier, shard, nshards):
@@ -273,12 +350,21 @@ def alpha_grid_cases(tier, shard, nshards):
         i += 1
         if i % nshards == shard:
           yield {"name": name, "size": size, "alpha": alpha,
-                 "route": "kw" if (size + k) % 2 else "pos"}
+                 "route": "kw" if (size + k) % 2 else "pos",
+                 "kws": (size + k) % 3 == 0}
+  for size in _special_alpha_sizes(tier):
+    for name in ("cos", "blackman"):
+      for k, alpha in enumerate(SPECIAL_ALPHAS[name]):
+        i += 1
+        if i % nshards == shard:
+          yield {"name": name, "size": size, "alpha": alpha, "special": True,
+                 "route": "kw" if (size + k) % 2 else "pos",
+                 "kws": (size + k) % 3 == 1}
 
 
 def run_alpha(case):
   name, size, alpha, route = case["name"], case["size"], case["alpha"], case["route"]
-  labels = check_window(name, size, alpha, route)
+  labels = check_window(name, size, alpha, route, case.get("kws", False))
   if name == "blackman" and size % 4 == 0 and size > 0:
     labels += check_cola(name, size, 4, alpha, route)
   if name == "blackman":
@@ -286,6 +372,10 @@ def run_alpha(case):
   else:
     labels.append("cos integer alpha" if alpha == int(alpha) else
                   ("cos alpha<1" if alpha < 1 else "cos fractional alpha>1"))
+    if 0 < alpha < .125:
+      labels.append("cos 0<alpha<1/8")
+  if alpha in SPECIAL_ALPHAS[name]:
+    labels.append("alpha:special value")
   return {"nontrivial": size >= 3, "labels": labels}
 
 
@@ -298,15 +388,154 @@ def strat_alpha(tier):
   size = st.one_of(st.integers(0, smax), st.integers(0, 64), st.sampled_from(SPECIAL_SIZES))
   cos_alpha = st.one_of(
     st.floats(0, 8, allow_nan=False), st.floats(0, 1, allow_nan=False),
-    st.integers(0, 6), st.sampled_from([0, .5, 1, 2, 3.5]))
+    st.floats(2. ** -10, .125), st.integers(0, 6), st.sampled_from([0, .5, 1, 2, 3.5]),
+    st.sampled_from(SPECIAL_ALPHAS["cos"]))
   bl_alpha = st.one_of(
     st.floats(0, .25, allow_nan=False), st.floats(0, 1, allow_nan=False),
-    st.sampled_from([0., .16, .25, 2.0 * 1430 / 18608, 1.]))
+    st.sampled_from([0., .16, .25, 2.0 * 1430 / 18608, 1.]),
+    st.sampled_from(SPECIAL_ALPHAS["blackman"]))
   return st.one_of(
     st.fixed_dictionaries(dict(name=st.just("cos"), size=size, alpha=cos_alpha,
-                               route=st.sampled_from(["pos", "kw"]))),
+                               route=st.sampled_from(["pos", "kw"]),
+                               kws=st.sampled_from([False, False, True]))),
     st.fixed_dictionaries(dict(name=st.just("blackman"), size=size, alpha=bl_alpha,
-                               route=st.sampled_from(["pos", "kw"]))))
+                               route=st.sampled_from(["pos", "kw"]),
+                               kws=st.sampled_from([False, False, True]))))
+
+
+# ---------------------------------------------------------------- histories
+# The statement has no "unless another window was asked in between": the periodic window, its
+# symmetric counterpart and the plain symmetric window are asked at different moments of one
+# history of calls, with calls of other strategies / dictionaries / sizes (multiples and divisors
+# of the period, the same size, unrelated sizes) before and between them. Every periodic result
+# must equal the prefix of every symmetric result, whenever each was obtained.
+
+COSINE_FAMILY = ["hann", "hanning", "hamming", "blackman"]
+HIST_ALPHAS = [None, None, None, .5, .25, .1, 1, 2, 2.0 * 1430 / 18608]
+MULS = [3, 5, 6, 7, 9, 10, 11, 12, 3, 5, 6, 2, 4, 8]
+
+
+def _other_period(kind, k, size):
+  if kind == "mul":
+    return k * size
+  if kind == "div":
+    return size // k
+  if kind == "near":
+    return max(0, size + k)
+  if kind == "same":
+    return size
+  return k            # "abs"
+
+
+def strat_history(tier):
+  smax = 160 if tier == "quick" else 400
+  name = st.one_of(st.sampled_from(ORDER), st.sampled_from(COSINE_FAMILY))
+  size = st.one_of(st.integers(1, 64), st.integers(0, smax), st.sampled_from([4, 12, 20, 60, 100]))
+  rel = st.one_of(
+    st.tuples(st.just("mul"), st.sampled_from(MULS)),
+    st.tuples(st.just("mul"), st.sampled_from(MULS)),
+    st.tuples(st.just("mul"), st.integers(2, 16)),
+    st.tuples(st.just("div"), st.integers(2, 6)),
+    st.tuples(st.just("near"), st.integers(-2, 2)),
+    st.tuples(st.just("same"), st.just(0)),
+    st.tuples(st.just("abs"), st.integers(0, 600)))
+  other = st.tuples(st.just("O"), st.sampled_from(["window", "wsymm"]), name, rel,
+                    st.sampled_from(HIST_ALPHAS))
+  probe = st.sampled_from([("P",), ("S",), ("T",)])
+  return st.fixed_dictionaries(dict(
+    name=name, size=size, alpha=st.sampled_from(HIST_ALPHAS),
+    route=st.sampled_from(["item", "attr"]), akw=st.booleans(),
+    fresh=st.sampled_from([True, True, False]), first=st.sampled_from(["P", "S"]),
+    spoil=st.booleans(),
+    pre=st.lists(other, max_size=2),
+    mid=st.lists(st.one_of(other, other, other, probe), min_size=1, max_size=4),
+    tail=st.lists(st.one_of(other, probe), max_size=3)))
+
+
+def _spoil(lst):
+  if isinstance(lst, list):
+    lst.append(7.5)
+    if lst:
+      lst[0] = -3.25
+    if len(lst) > 2:
+      del lst[1]
+
+
+def run_history(case):
+  name, size = case["name"], case["size"]
+  primary = NAMES[name]
+  alpha = case["alpha"] if primary in DEFAULT_ALPHA else None
+  a = DEFAULT_ALPHA.get(primary) if alpha is None else alpha
+  route = case["route"] if alpha is None else ("kw" if case["akw"] else "pos")
+  dicts = _fresh_dicts() if case["fresh"] else (window, wsymm)
+  per, sym = _strategies(name, route, dicts)
+  second = "S" if case["first"] == "P" else "P"
+  seq = list(case["pre"]) + [(case["first"],)] + list(case["mid"]) + [(second,)] + list(case["tail"])
+  tag = "%s(%d%s)" % (name, size, "" if alpha is None else ", alpha=%r" % (alpha,))
+
+  got = {"P": [], "S": [], "T": []}     # kind -> [(step, list as it is compared)]
+  said = []                              # the calls, for the report
+  for i, step in enumerate(seq):
+    kind = step[0]
+    if kind == "O":
+      dname, oname, (rk, k), oalpha = step[1], step[2], step[3], step[4]
+      if NAMES[oname] not in DEFAULT_ALPHA:
+        oalpha = None
+      p = _other_period(rk, k, size)
+      f = _strategies(oname, "item", dicts)[dname == "wsymm"]
+      osize = p + 1 if dname == "wsymm" else p
+      res = _call(f, osize, oalpha, "pos")
+      said.append("%s.%s(%d%s)" % (dname, oname, osize, "" if oalpha is None else ", %r" % (oalpha,)))
+      if case["spoil"]:
+        _spoil(res)
+      continue
+    f, sz = {"P": (per, size), "S": (sym, size + 1), "T": (sym, size)}[kind]
+    res = _call(f, sz, alpha, route)
+    said.append({"P": "window.%s", "S": "wsymm.%s [size+1]", "T": "wsymm.%s"}[kind] % tag)
+    if case["spoil"] and isinstance(res, list):
+      got[kind].append((i, list(res)))   # compared as it was handed out; the caller changes its list
+      _spoil(res)
+    else:
+      got[kind].append((i, res))         # compared at the end, as a caller holding it would
+
+  how = " in the history " + "; ".join(said)
+  for i, w in got["P"]:
+    _verify_periodic("%s [call %d%s]" % (tag, i, how), primary, size, a, w)
+  for i, ws1 in got["S"]:
+    _verify_symm("%s [size+1] [call %d%s]" % (tag, i, how), primary, size + 1, a, ws1)
+  for i, ws in got["T"]:
+    _verify_symm("%s [call %d%s]" % (tag, i, how), primary, size, a, ws)
+  for i, w in got["P"]:
+    for j, ws1 in got["S"]:
+      _verify_prefix(tag, name, size, w, ws1,
+                     " (periodic = call %d, symmetric = call %d%s)" % (i, j, how))
+
+  # what lies between the first periodic and a symmetric result (or the other way round)
+  lo = min(got["P"][0][0], got["S"][0][0])
+  hi = max(got["P"][-1][0], got["S"][-1][0])
+  between = [st_ for st_ in seq[lo + 1:hi] if st_[0] == "O"]
+  labels = ["strategy:" + primary, "history:fresh module" if case["fresh"] else "history:process module",
+            "history:%s first" % ("periodic" if case["first"] == "P" else "symmetric")]
+  if primary in ("hann", "hamming", "blackman"):
+    labels.append("history:raised cosine strategy")
+  if between:
+    labels.append("history:other call between periodic and symmetric")
+    if any(NAMES[st_[2]] != primary for st_ in between):
+      labels.append("history:other strategy between")
+    muls = [st_[3][1] for st_ in between if st_[3][0] == "mul"]
+    if muls:
+      labels.append("history:multiple of the period between")
+    if any(m & (m - 1) for m in muls):
+      labels.append("history:non-power-of-two multiple between")
+    if any(st_[3][0] == "div" and size % st_[3][1] == 0 and size >= st_[3][1] for st_ in between):
+      labels.append("history:divisor of the period between")
+    if any(st_[3][0] == "same" for st_ in between):
+      labels.append("history:same period between")
+  if case["spoil"]:
+    labels.append("history:results changed in place")
+  if len(got["P"]) + len(got["S"]) > 2:
+    labels.append("history:repeated probe")
+  return {"nontrivial": size >= 3 and bool(between), "labels": labels}
 
 
 COLA = [("hann", 2), ("hanning", 2), ("hamming", 2), ("bartlett", 2), ("rect", 2),
@@ -414,16 +643,33 @@ def run_identity(case):
 
 CLAUSES = [
   Enumerated("grid", grid_cases, run_grid, shards={"quick": 8, "thorough": 16},
+             floors={"size by keyword": .1},
              doc="every (name or alias, size) with the default alpha: length, exact prefix "
                  "relation, range, symmetry, wsymm(1)==[1.0], closed forms"),
   Enumerated("alpha_grid", alpha_grid_cases, run_alpha, shards={"quick": 8, "thorough": 16},
+             floors={"size by keyword": .1, "cos 0<alpha<1/8": .03, "alpha:special value": .05},
              doc="cos and blackman over fixed alpha lists x every size (all claims + "
                  "blackman size/4 COLA)"),
   Clause("alpha", strat_alpha, run_alpha, quick=3000, thorough=40000,
          floors={"strategy:cos": .15, "strategy:blackman": .15, "cos alpha<1": .03,
                  "cos fractional alpha>1": .03, "blackman alpha<=.25": .06,
-                 "cola:size/4": .02},
+                 "cola:size/4": .02, "cos 0<alpha<1/8": .04, "size by keyword": .1,
+                 "alpha:special value": .05},
          doc="Hypothesis sweep of float/int alpha for cos and blackman, positional and keyword"),
+  Clause("history", strat_history, run_history, quick=1600, thorough=16000,
+         shards={"quick": 16, "thorough": 32},
+         floors={"history:other call between periodic and symmetric": .25,
+                 "history:non-power-of-two multiple between": .15,
+                 "history:other strategy between": .2, "history:fresh module": .2,
+                 "history:process module": .1, "history:raised cosine strategy": .2,
+                 "history:divisor of the period between": .015,
+                 "history:same period between": .03, "history:results changed in place": .15,
+                 "history:periodic first": .15, "history:symmetric first": .15},
+         doc="histories of calls: the periodic window, its (size+1) symmetric counterpart and the "
+             "symmetric window asked at different moments, with calls of other strategies / "
+             "dictionaries / sizes (multiples, divisors, same, near, unrelated) before and "
+             "between, on a newly executed private copy of the module or on the worker's own; "
+             "every periodic result == prefix of every symmetric result, all other claims on each"),
   Enumerated("cola", cola_cases, run_cola, shards={"quick": 4, "thorough": 16},
              doc="constant hop-shifted sums: hop=size/2 (hann, hamming, bartlett, rect and "
                  "aliases), hop=size/4 (hann, hamming, blackman), every admissible size"),
